@@ -1102,7 +1102,7 @@ func (c *Checker) checkExpressionsWithinModule(node *ast.ModuleDeclarationNode) 
 
 	if ok {
 		c.popLocalConstScope()
-		c.popMethodScope()
+		c.popLocalMethodScope()
 		c.popLocalEnv()
 	}
 }
@@ -1139,7 +1139,7 @@ func (c *Checker) checkExpressionsWithinClass(node *ast.ClassDeclarationNode) {
 
 	if ok {
 		c.popLocalConstScope()
-		c.popMethodScope()
+		c.popLocalMethodScope()
 		c.popLocalEnv()
 	}
 }
@@ -1176,7 +1176,7 @@ func (c *Checker) checkExpressionsWithinMixin(node *ast.MixinDeclarationNode) {
 
 	if ok {
 		c.popLocalConstScope()
-		c.popMethodScope()
+		c.popLocalMethodScope()
 		c.popLocalEnv()
 	}
 }
@@ -1212,7 +1212,7 @@ func (c *Checker) checkExpressionsWithinInterface(node *ast.InterfaceDeclaration
 
 	if ok {
 		c.popLocalConstScope()
-		c.popMethodScope()
+		c.popLocalMethodScope()
 		c.popLocalEnv()
 	}
 }
@@ -1248,7 +1248,7 @@ func (c *Checker) checkExpressionsWithinSingleton(node *ast.SingletonBlockExpres
 
 	if ok {
 		c.popLocalConstScope()
-		c.popMethodScope()
+		c.popLocalMethodScope()
 		c.popLocalEnv()
 	}
 }
@@ -9201,7 +9201,7 @@ func (c *Checker) hoistModuleDeclarationWithFunc(node *ast.ModuleDeclarationNode
 	fn(node.Body)
 
 	c.popLocalConstScope()
-	c.popMethodScope()
+	c.popLocalMethodScope()
 	c.mode = prevMode
 }
 
@@ -9252,7 +9252,7 @@ func (c *Checker) hoistClassDeclarationWithFunc(node *ast.ClassDeclarationNode, 
 	fn(node.Body)
 
 	c.popLocalConstScope()
-	c.popMethodScope()
+	c.popLocalMethodScope()
 	c.mode = prevMode
 }
 
@@ -9299,7 +9299,7 @@ func (c *Checker) hoistMixinDeclarationWithFunc(node *ast.MixinDeclarationNode, 
 	fn(node.Body)
 
 	c.popLocalConstScope()
-	c.popMethodScope()
+	c.popLocalMethodScope()
 	c.mode = prevMode
 }
 
@@ -9342,7 +9342,7 @@ func (c *Checker) hoistInterfaceDeclarationWithFunc(node *ast.InterfaceDeclarati
 	fn(node.Body)
 
 	c.popLocalConstScope()
-	c.popMethodScope()
+	c.popLocalMethodScope()
 	c.mode = prevMode
 }
 
@@ -9392,7 +9392,7 @@ func (c *Checker) hoistSingletonDeclarationWithFunc(node *ast.SingletonBlockExpr
 	fn(node.Body)
 
 	c.popLocalConstScope()
-	c.popMethodScope()
+	c.popLocalMethodScope()
 	c.mode = prevMode
 }
 
